@@ -1,0 +1,15 @@
+//go:build verif
+
+package hsrv
+
+/*
+ * verif_on.go
+ * Verification hook (build tag verif is on)
+ */
+
+import "net/http"
+
+// VerifHandler returns the handler with which s serves HTTP requests, so it
+// can be driven with scripted ResponseWriters.  It only exists when built with
+// -tags verif.
+func (s *Server) VerifHandler() http.Handler { return s.newMux() }
